@@ -1146,6 +1146,14 @@ STATE_SWITCH:
                     if (data[pos] == CR) {
                         // We have a CR byte.
 
+                        // If a CR was set aside at the end of the previous input buffer, we
+                        // now know that it was not part of a line ending (it is followed by
+                        // this CR, not by LF), and so we can release it.
+                        if (parser->cr_aside) {
+                            parser->handle_data(parser, (unsigned char *) &"\r", 1, /* not a line */ 0);
+                            parser->cr_aside = 0;
+                        }
+
                         // Is this CR the last byte in the input buffer?
                         if (pos + 1 == len) {
                             // We have CR as the last byte in input. We are going to process
